@@ -1128,7 +1128,7 @@ def specs(tier, seed, carve):
     out.append(dict(id="time_out", fn="time_out", params={"symdt": True, "opaquefmt": True}, timeout=60, bound="every second in [-2^33, 2^34] outside the documented range" + (" minus the known-finding class (NTP value still fits 32 bits)" if "c01_time_wrap" in carve else "")))
     out.append(dict(id="time_reject", fn="time_reject", params={}, timeout=30, bound="int, str, None"))
     for fam in (1, 2, 8, -1):
-        out.append(dict(id="addr_dec/fam%d" % fam, fn="addr_dec", params={"fam": fam, "maxlen": 18 if fam == 2 else (3 if fam == -1 else (6 if q else 8))}, timeout=120 if q else 400,
+        out.append(dict(id="addr_dec/fam%d" % fam, fn="addr_dec", params={"fam": fam, "maxlen": 18 if fam == 2 else (3 if fam == -1 else (6 if q else 8))}, timeout=(500 if fam == 2 else 120) if q else 900,
                         bound="well-formed Address payloads of family %s (IP content realised at inet_ntop)" % (fam if fam >= 0 else "other (all 65533)")))
     out.append(dict(id="addr_enc_v4", fn="addr_enc_v4", params={}, timeout=200, bound="9x9x2x2 IPv4 texts from boundary octets (content realised at inet_pton)"))
     out.append(dict(id="addr_enc_v6", fn="addr_enc_v6", params={}, timeout=60, bound="8 IPv6 texts (compressed, full, v4-mapped, all-ones)"))
